@@ -637,6 +637,23 @@ func (w *World) evalCall(env *CEnv, e *CExpr) *Val {
 	name := fnE.Name
 	ev := func(i int) *Val { return w.eval(env, args[i]) }
 	switch name {
+	case "addr":
+		// addr(x.f): the (abstract) address of field f of object x
+		if len(args) != 1 || args[0].Op != "sel" {
+			unsupported("addr() needs a field selector")
+		}
+		base := w.eval(env, args[0].Args[0])
+		if base.Typ == nil {
+			unsupported("addr() of untyped value")
+		}
+		et := deref(base.Typ)
+		stt := et.Underlying().(*types.Struct)
+		fi := fieldIndex(stt, args[0].Name)
+		if fi < 0 {
+			unsupported("no field %s", args[0].Name)
+		}
+		t, _ := w.addrTerm(&Val{Loc: &Loc{kind: "field", base: base.T, styp: et, field: fi, rootT: stt.Field(fi).Type()}})
+		return &Val{T: t, Typ: types.NewPointer(stt.Field(fi).Type())}
 	case "old":
 		n := *env
 		n.inOld = true
